@@ -251,6 +251,13 @@ func lossy(s fakedb.Spec) fakedb.Spec {
 
 // evaluate runs dump -> checks -> load -> isomorphism -> verify (and the Verify iff sweep when mutate is set).
 func (c *checker) evaluate(spec fakedb.Spec, cfg rtk.Config, mutate bool, only string) {
+	art := artefact{Spec: spec, Config: cfg}
+	if p := core.Try(func() { c.evaluate1(spec, cfg, mutate, only) }); p != nil {
+		c.report("panic", fmt.Sprintf("dump/load/verify panicked: %v", p), art)
+	}
+}
+
+func (c *checker) evaluate1(spec fakedb.Spec, cfg rtk.Config, mutate bool, only string) {
 	ctx := context.Background()
 	art := artefact{Spec: spec, Config: cfg}
 	dir := filepath.Join(c.root, "dump")
